@@ -15,6 +15,11 @@ import (
 )
 
 // R4: the CHALLENGE parser and the AV_PAIR walker.
+//
+// Verdict policy (c08_complete.go): a mismatch is a violation only when the
+// value in question was resolved to reads of the message (wireIntAt3's
+// `observed`); an unresolved value, a struct or buffer handed to code that is
+// not followed, or a walk of another shape is NOT DECIDED.
 
 // c08Get recognises binary.<Order>.UintN(buf[lo:hi]) and returns the slice read.
 func c08Get(v ssa.Value) (call *ssa.Call, window ssa.Value, width int, order string, ok bool) {
